@@ -402,7 +402,32 @@ pub fn observe(store: &AnnotationStore) -> Sx {
             anns.push(l(vec![text(&ann_name(&x)), l(data), a(kind), l(leaves)]));
         }
     }
-    l(vec![ostr(store.id()), l(ress), l(sets), l(anns)])
+    let main = l(vec![ostr(store.id()), l(ress), l(sets), l(anns)]);
+    // sub-stores and who owns what
+    let subs: Vec<Sx> = store.substores().map(|x| l(vec![ostr(x.id()), ostr(x.as_ref().filename().and_then(|p| p.to_str()))])).collect();
+    let own = |h: Option<usize>| match h {
+        Some(k) => a(k as i64),
+        None => a(-1),
+    };
+    let mut rown = Vec::new();
+    for h in 0..store.resources_len() {
+        if let Some(r) = store.resource(TextResourceHandle::new(h)) {
+            rown.push(own(r.substores().next().map(|x| x.handle().as_usize())));
+        }
+    }
+    let mut sown = Vec::new();
+    for h in 0..store.datasets_len() {
+        if let Some(d) = store.dataset(AnnotationDataSetHandle::new(h)) {
+            sown.push(own(d.substores().next().map(|x| x.handle().as_usize())));
+        }
+    }
+    let mut aown = Vec::new();
+    for h in 0..store.annotations_len() {
+        if let Some(x) = store.annotation(AnnotationHandle::new(h)) {
+            aown.push(own(x.substore().map(|x| x.handle().as_usize())));
+        }
+    }
+    l(vec![main, l(subs), l(rown), l(sown), l(aown)])
 }
 
 /// what else must survive: every reverse lookup, by name, and id resolution
@@ -656,6 +681,19 @@ fn build_history(ops: &Sx, modes: &Sx, cfg: Config) -> Option<AnnotationStore> {
             // save now: the members that qualify become stand-off, the store is written
             assign_files(&mut store, modes)?;
             store.to_json_string(&cfg).ok()?;
+        } else if op.nth(0).int() == 10 {
+            let n = op.nth(1).int();
+            let _ = guard(|| store.add_new_substore(format!("sub{}", n), format!("sub{}.store.stam.json", n).as_str()));
+        } else if op.nth(0).int() == 11 {
+            let h = op.nth(2).int() as usize;
+            let k = AnnotationSubStoreHandle::new(op.nth(3).int() as usize);
+            if (op.nth(3).int() as usize) < store.substores_len() {
+                let _ = guard(|| match op.nth(1).int() {
+                    0 => <AnnotationStore as AssociateSubStore<TextResource>>::associate_substore(&mut store, TextResourceHandle::new(h), k),
+                    1 => <AnnotationStore as AssociateSubStore<AnnotationDataSet>>::associate_substore(&mut store, AnnotationDataSetHandle::new(h), k),
+                    _ => <AnnotationStore as AssociateSubStore<Annotation>>::associate_substore(&mut store, AnnotationHandle::new(h), k),
+                });
+            }
         } else {
             let _ = storegen::apply(&mut store, op);
         }
@@ -823,6 +861,20 @@ fn cov_of(store: &AnnotationStore, out: &mut Vec<String>) {
             }
         }
     }
+    if store.substores_len() > 0 {
+        out.push("substores".into());
+        for sub in store.substores() {
+            if sub.datasets().any(|d| d.as_ref().filename().is_some()) {
+                out.push("substore_with_standoff_dataset".into());
+            }
+            if sub.resources().any(|r| r.as_ref().filename().is_some()) {
+                out.push("substore_with_standoff_resource".into());
+            }
+            if sub.annotations().any(|x| x.id().is_none()) {
+                out.push("substore_with_idless_annotation".into());
+            }
+        }
+    }
     out.sort();
     out.dedup();
 }
@@ -921,10 +973,13 @@ impl Ctx {
         let pretty2 = store2.to_json_string(&cfg).unwrap_or_default();
         let compact2 = store2.to_json_string(&cfgc).unwrap_or_default();
         let snap2 = dir_snapshot(dir, &[]);
-        let flag1 = if code == 1 { a(1) } else { a(code) };
+        if code != 1 && std::env::var("C05_DEBUG").is_ok() {
+            eprintln!("C05 flag code {}", code);
+        }
+        let flag1 = b(code == 1);
         out.push(l(vec![flag1, b(pretty2 == pretty), b(compact2 == compact), b(snap1 == snap2)]));
         debug_assert_eq!(out.len(), N_SUB);
-        let nt = !orig.nth(3).list().is_empty();
+        let nt = !orig.nth(0).nth(3).list().is_empty();
         (out, nt)
     }
 }
@@ -1215,7 +1270,116 @@ pub fn generate(out: &mut Out, tier: &str, seed: u64) {
         }
         emit(&ctx, out, l(vec![a(0), l(ops), modes]));
     }
+    // 5a. a sub-store (with a stand-off dataset and resource inside it or not), saved, then: an addition to the
+    //     root, an addition to the sub-store (with / without public id; loading reorders those), new data in
+    //     the sub-store's dataset, a removal inside the sub-store; saved again
+    for rmode in 0..3 {
+        for smode in 0..2 {
+            for v in 0..6 {
+                emit(&ctx, out, sub_family(v, rmode, smode));
+            }
+        }
+    }
+    // 5. histories with sub-stores: the items of each sub-store are made first (natural order),
+    //    then the root's; one in five adds to a sub-store late (which loading reorders)
+    let n_sub = if thorough { 20000 } else { 600 };
+    for i in 0..n_sub {
+        let req = gen_sub_history(&mut rng, i % 5 == 4);
+        out.count("request_substores");
+        emit(&ctx, out, req);
+    }
     let _ = std::fs::remove_dir_all(&ctx.dir);
+}
+
+fn sub_family(v: usize, rmode: i64, smode: i64) -> Sx {
+    let id = |t: i64| l(vec![a(0), a(t)]);
+    let h = |x: i64| l(vec![a(1), a(x)]);
+    let cb = |n: i64| l(vec![a(0), a(n)]);
+    let int = |z: i64| l(vec![a(2), a(z)]);
+    let txt = |r: i64, b: i64, e: i64| l(vec![a(0), id(r), cb(b), cb(e)]);
+    let data = |idt: i64, key: i64, v: Sx| l(vec![id(0), if idt < 0 { a(-1) } else { id(idt) }, id(key), v]);
+    let own = |kind: i64, hd: i64| l(vec![a(11), a(kind), a(hd), a(0)]);
+    let mut ops = vec![
+        l(vec![a(10), a(0)]),
+        l(vec![a(0), a(0), a(8)]),
+        own(0, 0), // resource r0 in the sub-store
+        l(vec![a(3), a(0), txt(0, 1, 4), l(vec![data(-1, 0, int(1))])]),
+        own(2, 0),
+        own(1, 0), // annotation a0 and dataset s0 in the sub-store
+        l(vec![a(3), a(-1), txt(0, 2, 6), l(vec![data(3, 1, int(2))])]),
+        own(2, 1), // an annotation without id in the sub-store
+        l(vec![a(0), a(1), a(5)]), // resource r1 of the root
+        l(vec![a(3), a(-1), txt(1, 0, 2), l(vec![data(-1, 0, int(1))])]), // a root annotation without id using the sub-store's data
+        l(vec![a(3), a(4), l(vec![a(1), h(1)]), l(vec![])]), // a root annotation on the sub-store's id-less annotation
+        l(vec![a(9)]),
+    ];
+    match v {
+        0 => ops.push(l(vec![a(3), a(5), txt(1, 1, 3), l(vec![data(-1, 0, int(7))])])), // root addition, new data in the sub-store's set
+        1 => {
+            ops.push(l(vec![a(3), a(6), txt(0, 0, 8), l(vec![data(-1, 1, int(8))])])); // late addition to the sub-store, public id
+            ops.push(own(2, 4));
+        }
+        2 => {
+            ops.push(l(vec![a(3), a(-1), txt(0, 0, 8), l(vec![])])); // late addition to the sub-store, no id
+            ops.push(own(2, 4));
+        }
+        3 => ops.push(l(vec![a(4), h(1)])), // removal inside the sub-store (cascades to the root annotation on it)
+        4 => ops.push(l(vec![a(5), id(0), id(3), a(1)])), // remove_data in the sub-store's set
+        _ => {
+            ops.push(l(vec![a(0), a(2), a(3)])); // a new resource for the sub-store (late)
+            ops.push(own(0, 2));
+        }
+    }
+    l(vec![a(0), l(ops), l(vec![a(rmode), a(smode)])])
+}
+
+/// a history over a store with one or two sub-stores
+fn gen_sub_history(rng: &mut Rng, late: bool) -> Sx {
+    let cfg = storegen::GenCfg { max_ops: 8, removals: 2, invalid: 0, values: true };
+    let mut store = storegen::new_store();
+    let mut shadow = storegen::Shadow::default();
+    let mut ops: Vec<Sx> = Vec::new();
+    let nsubs = 1 + rng.below(2);
+    for k in 0..nsubs {
+        ops.push(l(vec![a(10), a(k as i64)]));
+    }
+    // phases: sub-store 0, (sub-store 1,) root, and possibly a late addition to sub-store 0
+    let mut phases: Vec<Option<usize>> = (0..nsubs).map(Some).collect();
+    phases.push(None);
+    if late {
+        phases.push(Some(0));
+    }
+    for (pi, owner) in phases.iter().enumerate() {
+        let n = if late && pi + 1 == phases.len() { 1 + rng.below(2) } else { 1 + rng.below(cfg.max_ops) };
+        for _ in 0..n {
+            let (nr, ns, na) = (store.resources_len(), store.datasets_len(), store.annotations_len());
+            let op = shadow.gen_op(rng, &cfg);
+            let _ = storegen::apply(&mut store, &op);
+            ops.push(op);
+            if guard(|| shadow.sync(&store)).is_none() {
+                break;
+            }
+            if let Some(k) = owner {
+                for h in nr..store.resources_len() {
+                    ops.push(l(vec![a(11), a(0), a(h as i64), a(*k as i64)]));
+                }
+                for h in ns..store.datasets_len() {
+                    ops.push(l(vec![a(11), a(1), a(h as i64), a(*k as i64)]));
+                }
+                for h in na..store.annotations_len() {
+                    ops.push(l(vec![a(11), a(2), a(h as i64), a(*k as i64)]));
+                }
+            }
+            if rng.chance(1, 8) {
+                ops.push(l(vec![a(9)]));
+            }
+        }
+        if rng.chance(1, 3) {
+            ops.push(l(vec![a(9)]));
+        }
+    }
+    let modes = if rng.chance(1, 2) { l(vec![a(0), a(0)]) } else { l(vec![a(rng.below(4) as i64), a(rng.below(3) as i64)]) };
+    l(vec![a(0), l(ops), modes])
 }
 
 const N_MODS: usize = 14;
